@@ -104,6 +104,20 @@ func (c *Client) SendStreamCut(stream []byte, cutAt int, chunk int, graceful boo
 	return x
 }
 
+// SendStreamAbandon writes the first cutAt bytes of stream on a new transfer connection, waits until the server has
+// consumed them and then walks away: no FIN or RST reaches the server until somebody resets the returned connection.
+func (c *Client) SendStreamAbandon(stream []byte, cutAt int) *simnet.Conn {
+	x := c.DialXfer()
+	if x == nil {
+		return nil
+	}
+	if _, err := x.Write(stream[:max(0, min(cutAt, len(stream)))]); err == nil {
+		c.waitDrained(x)
+	}
+	c.Abandoned = append(c.Abandoned, x)
+	return x
+}
+
 // waitDrained waits (simulated time) until the peer has read everything in flight.
 func (c *Client) waitDrained(x *simnet.Conn) {
 	for i := 0; i < 100 && x.Peer().Pending() > 0; i++ {
